@@ -22,8 +22,16 @@ VB_MOD = "sopht.numeric.immersed_boundary_ops.VirtualBoundaryForcing"
 IB_MOD = "sopht.simulator.immersed_body.immersed_body_flow_interaction"
 
 
+_NATIVE = [False]  # the unit text below also runs on the compiled code (replays, bounded native runs)
+
+
+def set_mode(K):
+    _NATIVE[0] = K.mode != "sym"
+    return _NATIVE[0]
+
+
 @contextlib.contextmanager
-def object_array_modules(*mods):
+def _object_array_modules(*mods):
     import importlib
 
     from svx import objnp
@@ -38,16 +46,38 @@ def object_array_modules(*mods):
             m.np = v
 
 
+def object_array_modules(*mods):
+    return contextlib.nullcontext() if _NATIVE[0] else _object_array_modules(*mods)
+
+
 def S_(x):
+    """exact symbol in the symbolic mode; plain float when the same unit text runs on the compiled code"""
+    if _NATIVE[0]:
+        return float(x)
     from svx.field import S
     return S(x)
 
 
+def fresh(K, name, shape):
+    """arbitrary (stale) prior content under a stable name, so that a counterexample can be replayed"""
+    if K.mode == "sym":
+        from svx import objnp
+        return objnp.fresh(name, shape)
+    return K.array(name, shape)
+
+
+def real_type(K):
+    if K.mode == "sym":
+        from svx.symnp import SymReal64
+        return SymReal64
+    return K.real_t
+
+
 def setup_vbf(K, dim, n_mark, reset):
     """a real VirtualBoundaryForcing object in an arbitrary state satisfying the class invariant"""
-    from svx import objnp
-    from svx.symnp import SymReal64 as SymReal
-    shape = tuple(K.ext(n, lo=4) for n in ("nz", "ny", "nx")[3 - dim:])
+    set_mode(K)
+    SymReal = real_type(K)
+    shape = tuple(K.ext(n, lo=4 if K.mode == "sym" else 8) for n in ("nz", "ny", "nx")[3 - dim:])
     dx = K.real("dx", pos=True)
     k, c = K.real("stiffness_coeff"), K.real("damping_coeff")
     t0 = K.real("start_time")
@@ -67,24 +97,25 @@ def setup_vbf(K, dim, n_mark, reset):
         cls.compute_interaction_force_on_eul_and_lag_grid_with_eul_grid_forcing_reset if reset
         else cls.compute_interaction_force_on_eul_and_lag_grid)))
     # ---- arbitrary reachable state: ghost integral I, last mismatch Vm, clock t, garbage elsewhere ------
-    I = objnp.fresh("integral_I", (dim, n_mark))
-    Vm = objnp.fresh("last_velocity_mismatch", (dim, n_mark))
+    I = fresh(K, "integral_I", (dim, n_mark))
+    Vm = fresh(K, "last_velocity_mismatch", (dim, n_mark))
     vbf.lag_grid_position_mismatch_field[...] = I
     vbf.lag_grid_velocity_mismatch_field[...] = Vm
-    vbf.lag_grid_forcing_field[...] = objnp.fresh("stale_forcing", (dim, n_mark))
-    vbf.lag_grid_flow_velocity_field[...] = objnp.fresh("stale_flow_velocity", (dim, n_mark))
+    vbf.lag_grid_forcing_field[...] = fresh(K, "stale_forcing", (dim, n_mark))
+    vbf.lag_grid_flow_velocity_field[...] = fresh(K, "stale_flow_velocity", (dim, n_mark))
     t = K.real("time_t")
     vbf.time = t
     return shape, dx, k, c, vbf, I.copy(), Vm.copy(), t
 
 
-def marker_inputs(K, dim, n_mark, shape, dx):
-    from svx import objnp
+def marker_inputs(K, dim, n_mark, shape, dx, prefix=""):
     m, s = {}, {}
     for i in range(n_mark):
         for a in range(dim):
-            m[a, i] = K.int(f"m{a}_{i}", lo=1, hi=shape[dim - 1 - a] - 3)
-            s[a, i] = K.real(f"s{a}_{i}")
+            m[a, i] = K.int(f"{prefix}m{a}_{i}", lo=1, hi=shape[dim - 1 - a] - 3)
+            s[a, i] = K.real(f"{prefix}s{a}_{i}")
+            if _NATIVE[0] and not (0 <= s[a, i] < 1):  # random runs: fold the draw into the cell
+                s[a, i] = s[a, i] % 1.0
             K.requires(and_(s[a, i] >= 0, s[a, i] < 1))
     X = K.array("lag_grid_position_field", (dim, n_mark), init=lambda idx: (m[idx] + s[idx]) * dx + dx / 2)
     V = K.array("lag_grid_velocity_field", (dim, n_mark))
@@ -102,8 +133,7 @@ def interp_of(K, u, wts, m, dim, dx, comp, i):
       assumes=("M8: a property of every reachable state follows by induction over the call sequence from the constructor "
                "postcondition and the method contracts (each proved from an ARBITRARY state satisfying the invariant)",))
 def virtual_boundary_methods(K, dim, method, reset):
-    if K.mode != "sym":
-        return None
+    native = set_mode(K)
     n_mark = 2
     shape, dx, k, c, vbf, I, Vm, t = setup_vbf(K, dim, n_mark, reset)
     if method == "time_step":
@@ -124,6 +154,8 @@ def virtual_boundary_methods(K, dim, method, reset):
         s0 = {}
         for key in m0:
             s0[key] = K.real(f"prev_s{key[0]}_{key[1]}")
+            if native and not (0 <= s0[key] < 1):
+                s0[key] = s0[key] % 1.0
             K.requires(and_(s0[key] >= 0, s0[key] < 1))
         X0 = K.array("previous_position_field", (dim, n_mark), init=lambda idx: (m0[idx] + s0[idx]) * dx + dx / 2)
         V0 = K.array("previous_velocity_field", (dim, n_mark))
@@ -133,9 +165,10 @@ def virtual_boundary_methods(K, dim, method, reset):
     m, s, X, V = marker_inputs(K, dim, n_mark, shape, dx)
     u = K.field("eul_grid_velocity_field", (dim,) + shape)
     f = K.field("eul_grid_forcing_field", (dim,) + shape)
-    if method != "lag_only":
+    if method != "lag_only" and not native:
         # modular step: the Lagrangian evaluation is replaced by its contract (proved in the lag_only
         # configurations): marker force / weights become opaque values, nearest index = containing cell
+        # (on the compiled code the real Lagrangian evaluation runs instead)
         from svx import objnp
         passed = []
 
@@ -155,7 +188,7 @@ def virtual_boundary_methods(K, dim, method, reset):
         vbf.compute_interaction_force_on_eul_and_lag_grid_with_eul_grid_forcing_reset(f, u, X, V)
     wts = vbf.interp_weights
     F = vbf.lag_grid_forcing_field
-    if method != "lag_only":
+    if method != "lag_only" and not native:
         K.ensures("lagrangian_evaluation_called_once_with_the_same_flow_and_body_arrays",
                   len(passed) == 1 and passed[0][0] is u and passed[0][1] is X and passed[0][2] is V)
     for i in range(n_mark):
